@@ -109,6 +109,23 @@ P_VpdB2(b) == VpdHdr(b) \cup
     { Nm("threshold_exponent", Fl(b, 4, 7, 8)), Nm("lbpu", Fl(b, 5, 7, 1)), Nm("lpbws", Fl(b, 5, 6, 1)),
       Nm("lbpws10", Fl(b, 5, 5, 1)), Nm("lbprz", Fl(b, 5, 2, 1)), Nm("anc_sup", Fl(b, 5, 1, 1)), Nm("dp", Fl(b, 5, 0, 1)),
       Nm("provisioning_type", Fl(b, 6, 2, 3)) }
+\* 89h ATA Information (SAT-3 12.4.2, table 200): SAT vendor / product / revision identification at 8 / 16 / 32,
+\* the 20-byte DEVICE SIGNATURE (a Register Device-to-Host FIS, SATA 3.x 10.5.6) at 36, COMMAND CODE at 56, and
+\* the 512-byte IDENTIFY (PACKET) DEVICE data at 60, whose 16-bit words are stored low byte first (ACS-3 7.12.7):
+\* word 0 general configuration (bit 15: 0 = ATA device, bit 2: response incomplete), word 2 specific
+\* configuration, words 10-19 serial number, 23-26 firmware revision, 27-46 model number.
+LeWord(b, off) == Strip(Bs(b, off + 1, 1) \o Bs(b, off, 1))
+P_Vpd89(b) == VpdHdr(b) \cup
+    { Bl("sat_vendor_identification", Bs(b, 8, 8)), Bl("sat_product_identification", Bs(b, 16, 16)),
+      Bl("sat_product_rev_lvl", Bs(b, 32, 4)),
+      Nm("signature/lba_low", Un(b, 40, 1)), Nm("signature/lba_mid", Un(b, 41, 1)), Nm("signature/lba_high", Un(b, 42, 1)),
+      Nm("signature/device", Un(b, 43, 1)), Nm("signature/sector_count", Un(b, 48, 1)),
+      Nm("identify/general_config/ata_device", Fl(b, 61, 7, 1)),
+      Nm("identify/general_config/respose_incomplete", Fl(b, 60, 2, 1)),
+      Nm("identify/specific_config", LeWord(b, 64)),
+      Bl("identify/serial_number", Bs(b, 80, 20)), Bl("identify/firmware_rev", Bs(b, 106, 8)),
+      Bl("identify/model_number", Bs(b, 114, 40)) }
+Ok_Vpd89(b) == Ok_Vpd(b) /\ Nn(b, 2, 2) = 568
 \* B3h referrals (SBC-3 table 193)
 P_VpdB3(b) == VpdHdr(b) \cup
     { Nm("user_data_segment_size", Fl(b, 8, 7, 32)), Nm("user_data_segment_multiplier", Fl(b, 12, 7, 32)) }
@@ -556,7 +573,7 @@ Ok_ReadCd(b, par) == RcMain(par) # <<>> /\ par.scsb \in {0, 2, 4} /\ par.c2ei \i
 
 \* ---- dispatch -----------------------------------------------------------------------------------
 Formats == { "ReadCapacity10", "ReadCapacity16", "ReportLuns", "GetLBAStatus", "InquiryStd", "Vpd00", "Vpd80",
-             "Vpd83", "Vpd86", "VpdB0", "VpdB1", "VpdB2", "VpdB3", "ModeSense6", "ModeSense10", "RtpgLen", "RtpgExt",
+             "Vpd83", "Vpd86", "Vpd89", "VpdB0", "VpdB1", "VpdB2", "VpdB3", "ModeSense6", "ModeSense10", "RtpgLen", "RtpgExt",
              "PrinKeys", "PrinReservation", "PrinCapabilities", "PrinFullStatus", "Rdi", "ReadElementStatus",
              "ReportPriority" }
 
@@ -564,7 +581,7 @@ Parse(fmt, b) ==
     CASE fmt = "ReadCapacity10" -> P_ReadCapacity10(b) [] fmt = "ReadCapacity16" -> P_ReadCapacity16(b)
       [] fmt = "ReportLuns" -> P_ReportLuns(b) [] fmt = "GetLBAStatus" -> P_GetLBAStatus(b)
       [] fmt = "InquiryStd" -> P_InquiryStd(b) [] fmt = "Vpd00" -> P_Vpd00(b) [] fmt = "Vpd80" -> P_Vpd80(b)
-      [] fmt = "Vpd83" -> P_Vpd83(b) [] fmt = "Vpd86" -> P_Vpd86(b) [] fmt = "VpdB0" -> P_VpdB0(b)
+      [] fmt = "Vpd83" -> P_Vpd83(b) [] fmt = "Vpd86" -> P_Vpd86(b) [] fmt = "Vpd89" -> P_Vpd89(b) [] fmt = "VpdB0" -> P_VpdB0(b)
       [] fmt = "VpdB1" -> P_VpdB1(b) [] fmt = "VpdB2" -> P_VpdB2(b) [] fmt = "VpdB3" -> P_VpdB3(b)
       [] fmt = "ModeSense6" -> P_ModeSense6(b) [] fmt = "ModeSense10" -> P_ModeSense10(b)
       [] fmt = "RtpgLen" -> P_Rtpg(b, FALSE) [] fmt = "RtpgExt" -> P_Rtpg(b, TRUE)
@@ -578,7 +595,7 @@ Okay(fmt, b) ==
       [] fmt = "ReportLuns" -> Ok_ReportLuns(b) [] fmt = "GetLBAStatus" -> Ok_GetLBAStatus(b)
       [] fmt = "InquiryStd" -> Ok_InquiryStd(b)
       [] fmt \in {"Vpd00", "Vpd80", "Vpd86", "VpdB0", "VpdB1", "VpdB2", "VpdB3"} -> Ok_Vpd(b)
-      [] fmt = "Vpd83" -> Ok_Vpd83(b)
+      [] fmt = "Vpd83" -> Ok_Vpd83(b) [] fmt = "Vpd89" -> Ok_Vpd89(b)
       [] fmt = "ModeSense6" -> Ok_ModeSense6(b) [] fmt = "ModeSense10" -> Ok_ModeSense10(b)
       [] fmt = "RtpgLen" -> Ok_Rtpg(b, FALSE) [] fmt = "RtpgExt" -> Ok_Rtpg(b, TRUE)
       [] fmt = "PrinKeys" -> Ok_PrinKeys(b) [] fmt = "PrinReservation" -> Ok_PrinReservation(b)
